@@ -38,6 +38,9 @@ type c17Case struct {
 	// arranged as Scenario says; everything that is not under <cwd>/pub at the time of the probes carries the marker
 	Rel      string `json:"relative_root,omitempty"`
 	Scenario string `json:"scenario,omitempty"` // two-mounts | chdir-between-routers | chdir-same-router
+	// Nested > 0: the mount under test and a second mount of the sibling directory are registered inside two nested
+	// groups with Nested (outer) + 1 (inner) pass-through middleware; requests alternate between the two mounts
+	Nested int `json:"nested_groups_outer_middleware,omitempty"`
 }
 
 var (
@@ -140,6 +143,12 @@ func c17Gen(tier string, emit func(c17Case)) {
 					if (h == "StaticFiles" || h == "StaticDir") && !enc && f%4 == 1 {
 						// with the route cache on and a second static mount whose root is the sibling directory
 						emit(c17Case{Handler: h, Prefix: p, Encoded: enc, First: f, Depth: 2, Cache: 1 + f%2})
+					}
+					if (h == "StaticFiles" || h == "StaticDir") && !enc && p == "/d" {
+						// both mounts inside nested groups whose middleware slices were grown by append (2+1, 3+1, 1+1)
+						for _, outer := range []int{2, 3, 1} {
+							emit(c17Case{Handler: h, Prefix: p, First: f, Depth: 2, Nested: outer})
+						}
 					}
 					if (h == "StaticFiles" || h == "StaticDir") && !enc && f%3 == 0 {
 						// a global path variable that happens to carry the name the static handlers use internally
@@ -315,25 +324,42 @@ func c17Run(c c17Case, st *fw.Stats) []fw.Viol {
 		opts = append(opts, rux.CachingWithNum(uint16(c.Cache)))
 	}
 	r := rux.New(opts...)
-	if c.Cache > 0 {
-		// a legitimate second mount: /other serves the sibling directory (whose files carry the outside marker)
-		if c.Handler == "StaticFiles" {
-			r.StaticFiles("/other", filepath.Join(c17Base, "rootx"), "css|js|txt")
-		} else {
-			r.StaticDir("/other", filepath.Join(c17Base, "rootx"))
+	mountAll := func() {
+		if c.Cache > 0 || c.Nested > 0 {
+			// a legitimate second mount: /other serves the sibling directory (whose files carry the outside marker)
+			if c.Handler == "StaticFiles" {
+				r.StaticFiles("/other", filepath.Join(c17Base, "rootx"), "css|js|txt")
+			} else {
+				r.StaticDir("/other", filepath.Join(c17Base, "rootx"))
+			}
+		}
+		switch c.Handler {
+		case "StaticDir":
+			r.StaticDir(c.Prefix, root)
+		case "StaticFS":
+			r.StaticFS(c.Prefix, http.Dir(root))
+		case "StaticFiles":
+			r.StaticFiles(c.Prefix, root, "css|js")
+		case "StaticFile":
+			r.StaticFile(c.Prefix, filepath.Join(root, "a.txt"))
 		}
 	}
-	switch c.Handler {
-	case "StaticDir":
-		r.StaticDir(c.Prefix, root)
-	case "StaticFS":
-		r.StaticFS(c.Prefix, http.Dir(root))
-	case "StaticFiles":
-		r.StaticFiles(c.Prefix, root, "css|js")
-	case "StaticFile":
-		r.StaticFile(c.Prefix, filepath.Join(root, "a.txt"))
+	base := ""
+	if c.Nested > 0 {
+		pass := func(*rux.Context) {}
+		var outer []rux.HandlerFunc
+		for i := 0; i < c.Nested; i++ {
+			outer = append(outer, pass)
+		}
+		r.Group("/o", func() { r.Group("/i", mountAll, pass) }, outer...)
+		base = "/o/i"
+	} else {
+		mountAll()
 	}
 	desc := fmt.Sprintf("%s(prefix %q, root <sandbox>/root, useEncodedPath=%v, global var file=%v, cache=%d)", c.Handler, c.Prefix, c.Encoded, c.Global, c.Cache)
+	if c.Nested > 0 {
+		desc += fmt.Sprintf(" registered, together with a mount of the sibling directory under /other, inside Group(\"/o\", %d middleware){Group(\"/i\", 1 middleware)}", c.Nested)
+	}
 	var probe func(raw string)
 	serveOther := func(p string) {
 		w := httptest.NewRecorder()
@@ -398,18 +424,18 @@ func c17Run(c c17Case, st *fw.Stats) []fw.Viol {
 	}
 	probe = func(raw string) {
 		probe1(raw)
-		if c.Cache > 0 {
+		if c.Cache > 0 || c.Nested > 0 {
 			// fill the cache from the other mount, then ask again: the answer must still come from this mount's root
-			serveOther("/other/s.css")
-			serveOther("/other/a.txt")
+			serveOther(base + "/other/s.css")
+			serveOther(base + "/other/a.txt")
 			probe1(raw)
-			serveOther("/other/s.css")
+			serveOther(base + "/other/s.css")
 			probe1(raw)
 		}
 	}
 	var rec func(cur string, n int)
 	rec = func(cur string, n int) {
-		probe(c.Prefix + cur)
+		probe(base + c.Prefix + cur)
 		if n == c.Depth {
 			return
 		}
@@ -418,8 +444,8 @@ func c17Run(c c17Case, st *fw.Stats) []fw.Viol {
 		}
 	}
 	if c.First == 0 {
-		probe(c.Prefix)
-		probe(c.Prefix + "/")
+		probe(base + c.Prefix)
+		probe(base + c.Prefix + "/")
 		// absolute components: the real absolute paths of the outside files, raw and encoded
 		for _, out := range []string{"SECRET.txt", "rootx/s.css", "root/../SECRET.txt"} {
 			abs := filepath.Join(c17Base, out)
@@ -441,7 +467,7 @@ func c17Run(c c17Case, st *fw.Stats) []fw.Viol {
 var c17Spec = fw.Spec[c17Case]{
 	ID:    "C17",
 	Level: "model_checking",
-	Rule: "complete enumeration: all request paths of <=3 (thorough 4) tokens over 33 tokens {.., ., empty, sub, a.txt, b.css, SECRET.txt, rootx, %2e%2e, ..%2f, %2f, \\, %5c.., %00, 'a.txt.', '.../', s.css, ..%5c, c.js, e.scss, m.mjs, acss, x.css.bak, dir.js, inner.md, 'a.txt;.css', 'd.md;x.js', 'a.txt%3B.css', ';'} after each mount prefix, sent with URL.RawPath = the raw string and URL.Path = its decoding, for StaticDir / StaticFS(http.Dir) / StaticFiles(css|js) / StaticFile x prefixes {/d, /deep/d, /root (= the directory's own name)} x both UseEncodedPath settings (and with a global path variable named like the handlers' internal variable), against a real sandbox tree with marked files outside the root (parent directory, name-prefix sibling 'rootx'); plus relative roots in 5 spellings x 4 handlers x 5 arrangements (other mounts whose directory names differ by leading dots / slashes; another router or another mount registered while the process worked in a directory of the same layout; the root created only after the mount was registered; two groups mounting under the same prefix argument with different roots, the other one requested first) probed with all paths of <=2 tokens over 12 tokens; " +
+	Rule: "complete enumeration: all request paths of <=3 (thorough 4) tokens over 33 tokens {.., ., empty, sub, a.txt, b.css, SECRET.txt, rootx, %2e%2e, ..%2f, %2f, \\, %5c.., %00, 'a.txt.', '.../', s.css, ..%5c, c.js, e.scss, m.mjs, acss, x.css.bak, dir.js, inner.md, 'a.txt;.css', 'd.md;x.js', 'a.txt%3B.css', ';'} after each mount prefix, sent with URL.RawPath = the raw string and URL.Path = its decoding, for StaticDir / StaticFS(http.Dir) / StaticFiles(css|js) / StaticFile x prefixes {/d, /deep/d, /root (= the directory's own name)} x both UseEncodedPath settings (and with a global path variable named like the handlers' internal variable; and with the mount and a second mount of the sibling directory inside nested groups with 2+1 / 3+1 / 1+1 middleware, requested alternately), against a real sandbox tree with marked files outside the root (parent directory, name-prefix sibling 'rootx'); plus relative roots in 5 spellings x 4 handlers x 5 arrangements (other mounts whose directory names differ by leading dots / slashes; another router or another mount registered while the process worked in a directory of the same layout; the root created only after the mount was registered; two groups mounting under the same prefix argument with different roots, the other one requested first) probed with all paths of <=2 tokens over 12 tokens; " +
 		"oracle: no body carries an outside marker or lists an outside directory, every 200 body is a file under the root, StaticFiles answers 200 only for allowed extensions, StaticFile only its file; non-trivial = a path containing a dot-dot in some encoding",
 	Assume: []string{"relative to the sandbox tree and the OS / file system the check runs on", "net/http's FileServer is part of the implementation under test, not of the oracle"},
 	Bounds: func(tier string) map[string]any {
